@@ -11,6 +11,8 @@ CONSTANTS
   CRProg <- U_CR
   Forms = {"fresh", "once"}
   Colls = {"k1", "k2"}
+  LAs <- U_LAs
+  DropOn = TRUE
   QuitOn = TRUE
   QuitDeferred = FALSE
   DefCap = 2
